@@ -23,7 +23,82 @@ ASSUMPTIONS = [
 ]
 
 
-def _kinds(rng):
+AXIS_PATTERNS = [[0], [1], [2], [0, 1], [0, 2], [1, 2], [0, 1, 2]]
+
+
+def _boundary_factors(rng, k=None):
+    """a factor triple with at least one factor from {0, -1, negative}; the other axes carry ordinary factors. With a running
+    index k the degenerate axes cycle through every axis pattern and every second triple has an exact 0 on each of them."""
+    ordinary = lambda: rng.choice([0.5, 2.0, 1.0, 3.0, rng.randint(1, 40) / 8])
+    boundary = lambda: rng.choice([0.0, 0.0, 0.0, -1.0, -rng.randint(1, 40) / 8])
+    which = rng.choice(AXIS_PATTERNS) if k is None else AXIS_PATTERNS[k % len(AXIS_PATTERNS)]
+    zero = k is not None and (k // len(AXIS_PATTERNS)) % 2 == 0
+    return [(0.0 if zero else boundary()) if i in which else ordinary() for i in range(3)]
+
+
+# the spelling of a number: the factors / offsets are dyadic, so every spelling denotes the same real number
+NUMS = ["float", "int", "float32", "float64"]
+
+
+def _spell(v, num):
+    if num == "int" and float(v) == int(v):
+        return int(v)
+    if num == "float32":
+        return np.float32(v)
+    if num == "float64":
+        return np.float64(v)
+    return float(v)
+
+
+# ---- trees that carry their own column-name table (the public `names=SWCNames(...)` option) ----------------------------------
+FIELDS = ["id", "type", "x", "y", "z", "r", "pid"]
+NAME_FAMILIES = ["all", "coords", "permuted", "topo"]
+
+
+def _names(rng, family):
+    """a column-name table as {field: column name}: every column renamed / only the coordinates / the default coordinate names
+    permuted among the coordinates / only the non-coordinate columns renamed"""
+    style = rng.choice(["upper", "prefix", "suffix", "word"])
+    word = {"id": "node", "type": "label", "x": "px", "y": "py", "z": "pz", "r": "radius", "pid": "parent"}
+    tag = rng.choice(["n", "swc", "col", "v"])
+    ren = {"upper": lambda f: f.upper(), "prefix": lambda f: f"{tag}_{f}", "suffix": lambda f: f"{f}_{tag}", "word": lambda f: word[f]}[style]
+    nm = {f: f for f in FIELDS}
+    if family in ("all", "coords"):
+        for f in (FIELDS if family == "all" else ["x", "y", "z"]):
+            nm[f] = ren(f)
+    elif family == "topo":
+        for f in ["id", "type", "r", "pid"]:
+            nm[f] = ren(f)
+    else:
+        perm = rng.choice([["y", "x", "z"], ["z", "y", "x"], ["x", "z", "y"], ["y", "z", "x"], ["z", "x", "y"]])
+        nm["x"], nm["y"], nm["z"] = perm
+        if rng.random() < 0.5:
+            for f in ["id", "type", "r", "pid"]:
+                nm[f] = ren(f)
+    return nm
+
+
+def _make_tree(t, names=None, route="ctor"):
+    """the real Tree of a tree case, optionally with a user supplied names table (constructor or data-frame route)"""
+    if not names:
+        return gen.make_tree(t)
+    from swcgeom.core import Tree
+    from swcgeom.core.swc_utils import SWCNames
+
+    nm = SWCNames(**names)
+    n = t["n"]
+    xyz = np.array(t["xyz"], dtype=np.float32).reshape(n, 3)
+    cols = {nm.id: np.arange(n, dtype=np.int32), nm.type: np.array(t["types"], dtype=np.int32),
+            nm.x: xyz[:, 0].copy(), nm.y: xyz[:, 1].copy(), nm.z: xyz[:, 2].copy(),
+            nm.r: np.array(t["r"], dtype=np.float32), nm.pid: np.array(t["pids"], dtype=np.int32)}
+    if route == "dataframe":
+        import pandas as pd
+
+        return Tree.from_data_frame(pd.DataFrame(cols), names=nm)
+    return Tree(n, names=nm, **cols)
+
+
+def _kinds(rng, k=None):
     th = rng.choice([0.0, math.pi / 2, -math.pi / 3, rng.uniform(-3.1, 3.1), rng.uniform(-3.1, 3.1)])
     ax = [rng.uniform(-1, 1) for _ in range(3)]
     nrm = math.sqrt(sum(a * a for a in ax)) or 1.0
@@ -33,6 +108,9 @@ def _kinds(rng):
     return [
         ("translate", [rng.randint(-40, 40) / 4 for _ in range(3)]),
         ("scale", [rng.choice([0.5, 2.0, 1.0, 3.0, 0.25, rng.randint(1, 40) / 8]) for _ in range(3)]),
+        # boundary factors: "all scale factors" includes 0 (flattening onto a coordinate plane / axis through the centre),
+        # negative ones (mirroring) and -1; at least one axis is degenerate, every axis pattern occurs (see _boundary_factors)
+        ("scale", _boundary_factors(rng, k)),
         ("rotx", [th]), ("roty", [th]), ("rotz", [th]),
         ("rot", ax + [th]),
         ("translate_origin", []),
@@ -67,10 +145,12 @@ def _expected(kind, a, center, root, P):
     return R + c0
 
 
-def _transform(kind, a, center):
+def _transform(kind, a, center, num="float"):
     from swcgeom.transforms import Rotate, RotateX, RotateY, RotateZ, Scale, Translate, TranslateOrigin
 
     kw = {} if center == "default" else {"center": center}
+    if kind in ("translate", "scale"):
+        a = [_spell(v, num) for v in a]
     if kind == "translate":
         return Translate(*a, **kw)
     if kind == "affine":
@@ -101,29 +181,44 @@ class Affine(Suite):
 
     def cases(self, rng, tier, widen):
         out = []
-        reps = 2 if tier == "quick" and not widen else 8
-        k = 0
-        for n in [1, 2, 3, 5, 9, 20] + ([60, 200] if tier == "thorough" or widen else []):
-            for _ in range(reps):
+        big = tier == "thorough" or widen
+        reps = 8 if big else 2
+        named_reps = 4 if big else 1     # per size: trees with their own column names (guaranteed share, every family in the quick tier)
+        k = kn = 0
+        for n in [1, 2, 3, 5, 9, 20] + ([60, 200] if big else []):
+            for rep in range(reps + named_reps):
                 t = gen.tree_case(rng, n, gen.pick_shape(rng, k), numbering=rng.choice(["sorted", "root0"]), coords="dyadic"); k += 1
                 if rng.random() < 0.15:  # root at the origin (where a wrong centre goes unnoticed)
                     off = t["xyz"][0][:]
                     t["xyz"] = [[p[i] - off[i] for i in range(3)] for p in t["xyz"]]
-                for kind, a in _kinds(rng):
+                names, route, fam = None, "ctor", "default"
+                if rep >= reps:
+                    fam = NAME_FAMILIES[kn % len(NAME_FAMILIES)]
+                    names, route = _names(rng, fam), ["ctor", "dataframe"][(kn // len(NAME_FAMILIES)) % 2]; kn += 1
+                for kind, a in _kinds(rng, k):
                     center = rng.choice(["root", "origin", "default", "soma"]) if kind != "translate_origin" else "default"
-                    out.append({"class": f"{kind}/{center}", "tree": t, "kind": kind, "a": a, "center": center, "warm": rng.random() < 0.5})
+                    cls = kind
+                    if kind == "scale" and any(v <= 0 for v in a):
+                        cls = "scale-flat" if any(v == 0 for v in a) else "scale-mirror"
+                    c = {"class": f"{cls}/{center}" + ("" if names is None else f"/names-{fam}"), "tree": t, "kind": kind, "a": a, "center": center,
+                         "warm": rng.random() < 0.5, "num": rng.choice(NUMS) if kind in ("translate", "scale") else "float"}
+                    if names is not None:
+                        # the warm-up neuron of a reused transform object has the same names table or the default one
+                        c.update(names=names, route=route, warm_names=rng.choice(["same", "default"]))
+                    out.append(c)
         return out
 
     def run(self, case):
-        t = gen.make_tree(case["tree"])
+        names, route, num = case.get("names"), case.get("route", "ctor"), case.get("num", "float")
+        t = _make_tree(case["tree"], names, route)
         before = {k: v.copy() for k, v in t.ndata.items()}
-        tr = _transform(case["kind"], case["a"], case["center"])
+        tr = _transform(case["kind"], case["a"], case["center"], num)
         # the inverse transform is built BEFORE the forward one is applied: transform objects are values, several are alive at once
         kind, a = case["kind"], case["a"]
         inv = None
         if kind == "translate":
-            inv = _transform(kind, [-v for v in a], case["center"])
-        elif kind == "scale":
+            inv = _transform(kind, [-v for v in a], case["center"], num)
+        elif kind == "scale" and all(v != 0 for v in a):      # a scaling with a zero factor has no inverse
             inv = _transform(kind, [1 / v for v in a], case["center"])
         elif kind in ("rotx", "roty", "rotz"):
             inv = _transform(kind, [-a[0]], case["center"])
@@ -134,14 +229,14 @@ class Affine(Suite):
             # the same transform object used on another neuron first (transform objects are reusable:
             # `Transforms(...)`, population maps); it must not remember anything about that neuron
             w = dict(case["tree"]); w["xyz"] = [[p[0] + 17.0, p[1] - 9.0, p[2] + 4.0] for p in w["xyz"]]
-            tr(gen.make_tree(w))
+            tr(_make_tree(w, names if case.get("warm_names") == "same" else None, route))
         y = tr(t)
         via_classmethod = None
         if case["kind"] in ("translate", "scale") and case["center"] != "default":
             # the one-shot spelling `Cls.transform(tree, …)`
             from swcgeom.transforms import Scale, Translate
 
-            z = (Translate if case["kind"] == "translate" else Scale).transform(t, *case["a"], center=case["center"])
+            z = (Translate if case["kind"] == "translate" else Scale).transform(t, *[_spell(v, num) for v in case["a"]], center=case["center"])
             via_classmethod = bool(np.array_equal(z.xyz(), y.xyz()))
         res = {"xyz": y.xyz().astype(np.float64).tolist(), "pid": y.pid().tolist(), "type": y.type().tolist(),
                "r": y.r().astype(np.float64).tolist(), "id": y.id().tolist(),
@@ -175,6 +270,8 @@ class Affine(Suite):
         if "exc" in res:
             return [(f"{case['kind']}-raises", f"{case['kind']}({case['a']}, center={case['center']}) raised {res['exc']}: {res.get('msg')}")]
         out = []
+        how = (f" [factors spelled as {case['num']}]" if case.get("num", "float") != "float" else "") + \
+              (f" [tree with column names {case['names']} built by {case.get('route')}]" if case.get("names") else "")
         P = np.array(t["xyz"], dtype=np.float64)
         exp = _expected(case["kind"], case["a"], self._center(case), t["xyz"][0], P)
         got = np.array(res["xyz"])
@@ -183,7 +280,7 @@ class Affine(Suite):
             i = int(np.argmax(np.abs(got - exp).sum(axis=1))) if got.shape == exp.shape else -1
             out.append((f"{case['kind']}-wrong-map/{self._center(case)}",
                         f"{case['kind']}{case['a']} center={case['center']}: node {i} at {P[i].tolist()} (root {P[0].tolist()}) went to "
-                        f"{got[i].tolist() if i >= 0 else got.shape}, stated map gives {exp[i].tolist() if i >= 0 else exp.shape}"))
+                        f"{got[i].tolist() if i >= 0 else got.shape}, stated map gives {exp[i].tolist() if i >= 0 else exp.shape}{how}"))
         if res["pid"] != t["pids"] or res["type"] != t["types"] or res["id"] != list(range(t["n"])):
             out.append(("topology-or-type-changed", "parent relation / types / ids changed by a geometric transform"))
         if not np.allclose(res["r"], np.array(t["r"], dtype=np.float32).astype(np.float64)):
